@@ -103,6 +103,8 @@ class Contract(object):
         #                                                                    for modelled EXTERNAL functions
         self.call_ghosts = d.get("call_ghosts")   # {callee qualname: (contract name, spec fn -> {ghost param: value})}:
         #                                            ghost witnesses this proof supplies when it applies that contract
+        self.log_result = d.get("log_result")     # spec fn(args..., result) -> tuple: appended to the event log when
+        #                                            the call RETURNS (what a summary handed back, in call order)
         self.pure = d.get("pure")                 # 'str'|'bytes'|'int': result is a function of the arguments
 
 
